@@ -144,6 +144,18 @@ theorem sin_atan2 {x y r : ℝ} (hr : 0 < r) (h : x * x + y * y = r * r) : Real.
     rw [Complex.norm_def, Complex.normSq_mk, h]; exact Real.sqrt_mul_self hr.le
   rw [Complex.sin_arg, hn]
 
+theorem sq_sum_zero {x y : ℝ} (h : x * x + y * y = 0) : x = 0 ∧ y = 0 := by
+  have hx := mul_self_nonneg x; have hy := mul_self_nonneg y
+  exact ⟨mul_self_eq_zero.mp (by linarith), mul_self_eq_zero.mp (by linarith)⟩
+
+theorem cos_mul_self_add (x : ℝ) : Real.cos x * Real.cos x + Real.sin x * Real.sin x = 1 := by
+  have := Real.cos_sq_add_sin_sq x; linear_combination this
+
+theorem so3_entry_bounds (M : Matrix (Fin 3) (Fin 3) ℝ) (hO : M * Mᵀ = 1) : -1 ≤ M 2 2 ∧ M 2 2 ≤ 1 := by
+  obtain ⟨hr2, _, _⟩ := so3_norms M hO
+  have h1 : M 2 2 * M 2 2 ≤ 1 := by linarith [mul_self_nonneg (M 2 0), mul_self_nonneg (M 2 1)]
+  exact abs_le_of_sq_le_sq' (by rw [sq, one_pow]; exact h1) zero_le_one
+
 theorem clip1_of_mem {x : ℝ} (h1 : -1 ≤ x) (h2 : x ≤ 1) : clip1 x = x := by
   unfold clip1; rw [if_neg (not_lt.mpr h1), if_neg (not_lt.mpr h2)]
 
